@@ -124,7 +124,7 @@ Fixpoint exec_with (step : market -> op -> result (market * list record)) (m : m
               end
   end.
 
-Require Import Pams.Sim Pams.SimMarketLift Pams.MarketSeries Pams.MarketExec Pams.MarketRound Pams.MarketPrice Pams.MatchQ Pams.MarketLife.
+Require Import Pams.Sim Pams.SimMarketLift Pams.MarketSeries Pams.MarketExec Pams.MarketRound Pams.MarketPrice Pams.MatchQ Pams.MarketLife Pams.MarketPost.
 
 Theorem every_history_of_the_source_is_a_history_of_the_model : forall ops m,
   book_ok m -> gone_here m -> 0 <= m_time m -> Forall valid_op ops ->
@@ -320,6 +320,53 @@ Proof.
   - destruct buy; [apply buy_rounds_down|apply sell_rounds_up]; exact Hk.
 Qed.
 Print Assumptions an_order_accepted_by_the_source_carries_the_rounded_price.
+
+(* the premises of the single-step tie hold of the state any history of the source reaches from setup *)
+Lemma the_state_a_history_reaches_meets_the_premises : forall id tk mp0 f0 ops, Forall valid_op ops ->
+  let mf := final_state (init_market id tk mp0) (OTick f0 :: ops) in book_ok mf /\ gone_here mf /\ 0 <= m_time mf.
+Proof.
+  intros id tk mp0 f0 ops Hv. cbn [final_state]. unfold step. cbn [step_rec bind].
+  destruct (tick (init_market id tk mp0) f0) as [m1 rs1] eqn:Et.
+  assert (Hm1 : m1 = fst (tick (init_market id tk mp0) f0)) by (rewrite Et; reflexivity).
+  pose proof (premises_travel ops m1) as K. rewrite exec_rec_is_final_and_trace in K. cbn [fst] in K. apply K; [| | |exact Hv].
+  - rewrite Hm1. apply tick_ok. apply book_ok_init.
+  - rewrite Hm1. unfold gone_here. cbn. constructor.
+  - rewrite Hm1. cbn. lia.
+Qed.
+
+(* ... C03, the postcondition: whenever a round carried out by the source's own statements returns after ANY history of the source, the
+   books it leaves do not cross - if both sides still hold an order and one of the two best is a limit order, both are, and the best buy
+   is strictly below the best sell *)
+Theorem a_round_of_the_source_leaves_books_that_do_not_cross : forall id tk mp0 f0 ops, Forall valid_op ops ->
+  let m := fst (exec_with step_src (init_market id tk mp0) (OTick f0 :: ops)) in
+  forall m' logs b bs s ss, execution_src m = Ok (m', logs) -> m_buys m' = b :: bs -> m_sells m' = s :: ss ->
+  (price b <> None \/ price s <> None) -> exists pb ps, price b = Some pb /\ price s = Some ps /\ (pb < ps)%Q.
+Proof.
+  intros id tk mp0 f0 ops Hv.
+  rewrite (histories_of_the_source_from_setup id tk mp0 f0 ops Hv). cbn [fst].
+  pose proof (the_state_a_history_reaches_meets_the_premises id tk mp0 f0 ops Hv) as P.
+  set (m := final_state (init_market id tk mp0) (OTick f0 :: ops)) in *. cbv zeta in P. destruct P as [HB [HG Ht]].
+  intros m' logs b bs s ss Ex. pose proof (step_src_is_step_rec m OExec HB HG Ht) as E. cbn [step_src step_rec] in E.
+  rewrite E in Ex. exact (round_clears_book m m' logs b bs s ss Ex).
+Qed.
+Print Assumptions a_round_of_the_source_leaves_books_that_do_not_cross.
+
+(* ... C03 / C16, the stopped market: after ANY history of the source, a round on a market that is not running either changes nothing and
+   reports nothing, or is refused with the documented "market is not running" - and a round that returns fills was on a running market *)
+Theorem a_round_of_the_source_on_a_stopped_market_trades_nothing : forall id tk mp0 f0 ops, Forall valid_op ops ->
+  let m := fst (exec_with step_src (init_market id tk mp0) (OTick f0 :: ops)) in
+  (m_running m = false -> execution_src m = Ok (m, []) \/ execution_src m = Err EAssertNotRunning) /\
+  (forall m' logs, execution_src m = Ok (m', logs) -> logs <> [] -> m_running m = true).
+Proof.
+  intros id tk mp0 f0 ops Hv.
+  rewrite (histories_of_the_source_from_setup id tk mp0 f0 ops Hv). cbn [fst].
+  pose proof (the_state_a_history_reaches_meets_the_premises id tk mp0 f0 ops Hv) as P.
+  set (m := final_state (init_market id tk mp0) (OTick f0 :: ops)) in *. cbv zeta in P. destruct P as [HB [HG Ht]].
+  pose proof (step_src_is_step_rec m OExec HB HG Ht) as E. cbn [step_src step_rec] in E. rewrite E. split.
+  - intros Hr. exact (execution_not_running m HB Hr).
+  - intros m' logs Ex. exact (no_fill_when_not_running m m' logs Ex).
+Qed.
+Print Assumptions a_round_of_the_source_on_a_stopped_market_trades_nothing.
 
 (* non-vacuity: the premises hold of a market after its first clock step, and a history with an order on each side, a round, a cancel of
    the rest and a clock step runs through the generated functions to a trade and a cancellation *)
